@@ -2,8 +2,8 @@
 from gcv import typestate
 
 
-def run(chk, tier):
-    prog, T = typestate.engine("default")
+def run_config(chk, tier, cfgname):
+    prog, T = typestate.engine(cfgname)
     chk.explain("C05: GcWeak::upgrade returns Some(target) iff live and not (Sweep and WhiteWeak), extracted from "
                 "MIR through the public API for all 48 (phase, colour, live, needs-trace) states; weak tracing and "
                 "the weak barriers mark White -> WhiteWeak only (never Gray/Black, never queue); is_dropped == not "
@@ -25,3 +25,17 @@ def run(chk, tier):
         bad = [x for x in ("gc_ptr::GcPtr::as_ref", "<gc::Gc as core::ops::deref::Deref>::deref") if x in pred]
         chk.inst("weak-queries-header-only", q, not bad,
                  detail="%s reaches a value dereference: %s" % (q, " -> ".join(prog.path_to(pred, bad[0])) if bad else ""))
+
+
+def run(chk, tier):
+    cfgs = typestate.configs(tier)
+    chk.extra["feature_configs"] = cfgs
+    for c in cfgs:
+        chk.cfg = c
+        n_expl = len(chk.explanation)
+        nd = len(chk.not_decided)
+        run_config(chk, tier, c)
+        if c != cfgs[0]:
+            del chk.explanation[n_expl:]
+            del chk.not_decided[nd:]
+    chk.cfg = None
